@@ -145,7 +145,11 @@ func execC19(e *Env, p *Plan) error {
 			resp := wf.Get(ep.path, ep.q, c.hdr, c.cookies)
 			served := resp.Code >= 200 && resp.Code < 300
 			e.Count("probe.web." + c.name)
-			e.Logf("web oauth=%v pw=%v gh=%s clock=+%v cred=%s %s -> %d", oauth, pwSet, ghMode, clockOff, c.name, ep.path, resp.Code)
+			logPath := ep.path
+			if strings.HasPrefix(logPath, "/cached/") {
+				logPath = "/cached/<permalink>" // random uuid: never in the log
+			}
+			e.Logf("web oauth=%v pw=%v gh=%s clock=+%v cred=%s %s -> %d", oauth, pwSet, ghMode, clockOff, c.name, logPath, resp.Code)
 			if served && !c.valid {
 				sig := "web-served-without-valid-credential"
 				if c.name == "session-cookie" && !cookieLive {
